@@ -97,4 +97,11 @@ theorem text_Cache_Cleanup_ok : Oidc.Shapes.Text_Cache_Cleanup := by unfold Oidc
 theorem text_Cache_evictOldest_ok : Oidc.Shapes.Text_Cache_evictOldest := by unfold Oidc.Shapes.Text_Cache_evictOldest; rfl
 theorem text_Cache_removeItem_ok : Oidc.Shapes.Text_Cache_removeItem := by unfold Oidc.Shapes.Text_Cache_removeItem; rfl
 
+
+/-! ## Program text of the helpers these theorems also rest on (constructors, accessors, token endpoint, configuration) -/
+theorem text_NewCache_ok : Oidc.Shapes.Text_NewCache := by unfold Oidc.Shapes.Text_NewCache; rfl
+theorem text_Cache_Close_ok : Oidc.Shapes.Text_Cache_Close := by unfold Oidc.Shapes.Text_Cache_Close; rfl
+theorem text_Cache_startAutoCleanup_ok : Oidc.Shapes.Text_Cache_startAutoCleanup := by unfold Oidc.Shapes.Text_Cache_startAutoCleanup; rfl
+theorem text_autoCleanupRoutine_ok : Oidc.Shapes.Text_autoCleanupRoutine := by unfold Oidc.Shapes.Text_autoCleanupRoutine; rfl
+
 end Oidc.Props.C12
